@@ -153,6 +153,9 @@ func (s *TimerQueue) Cancel(id int) bool {
 
 // 当前时间
 func (s *TimerQueue) currentTimeUnit() int64 {
+	if now, ok := verifNow(s); ok {
+		return now
+	}
 	return time.Now().UnixNano() / int64(s.timeUnit)
 }
 
